@@ -11,6 +11,8 @@ use tokio::{fs::File, io::AsyncWriteExt};
 
 /// Writes all the buffers to the file. A single vectored write may take only a part of the data
 /// (the file buffers a limited number of bytes per write), so it is repeated until nothing is left.
+/// A write returns as soon as the data is buffered, so the file is flushed at the end: only then
+/// the data is in the file (and a failed write is reported) and can be made visible to the readers.
 async fn write_all_vectored(file: &mut File, mut bufs: &mut [IoSlice<'_>]) -> std::io::Result<()> {
     IoSlice::advance_slices(&mut bufs, 0);
     while !bufs.is_empty() {
@@ -20,5 +22,5 @@ async fn write_all_vectored(file: &mut File, mut bufs: &mut [IoSlice<'_>]) -> st
         }
         IoSlice::advance_slices(&mut bufs, written);
     }
-    Ok(())
+    file.flush().await
 }
